@@ -407,6 +407,56 @@ func forEachSweepVector(f func(ver int, lv spec.Level, v spec.Vec, label string)
 			}
 		}
 	}
+	// v3: every move of a contiguous block of tokens of the canonical full vector, and every
+	// order of the specification's sub-groups (base | temporal | requirements | modified
+	// exploitability | modified scope | modified impact)
+	{
+		full := representatives(3)[4]
+		canon := func(lv spec.Level) []spec.Tok {
+			var t []spec.Tok
+			for _, m := range spec.UpTo(spec.V3Metrics, lv) {
+				v, _ := full.Get(m.Name)
+				t = append(t, spec.Tok{Name: m.Name, Value: v})
+			}
+			return t
+		}
+		for _, lv := range []spec.Level{spec.Temporal, spec.Environmental} {
+			toks := canon(lv)
+			n := len(toks)
+			for a := 0; a < n; a++ {
+				for k := 1; a+k <= n && k <= 11; k++ {
+					block := toks[a : a+k]
+					rest := append(append([]spec.Tok(nil), toks[:a]...), toks[a+k:]...)
+					for to := 0; to <= len(rest); to++ {
+						if to == a {
+							continue
+						}
+						moved := append(append(append([]spec.Tok(nil), rest[:to]...), block...), rest[to:]...)
+						f(3, lv, spec.Vec{Ver: full.Ver, Toks: moved}, "sweep:v3-block-move")
+					}
+				}
+			}
+		}
+		groups := [][]spec.Tok{canon(spec.Environmental)[0:8], canon(spec.Environmental)[8:11], canon(spec.Environmental)[11:14], canon(spec.Environmental)[14:18], canon(spec.Environmental)[18:19], canon(spec.Environmental)[19:22]}
+		idx := []int{0, 1, 2, 3, 4, 5}
+		var permGroups func(k int)
+		permGroups = func(k int) {
+			if k == len(idx) {
+				var t []spec.Tok
+				for _, g := range idx {
+					t = append(t, groups[g]...)
+				}
+				f(3, spec.Environmental, spec.Vec{Ver: "3.0", Toks: t}, "sweep:v3-group-order")
+				return
+			}
+			for i := k; i < len(idx); i++ {
+				idx[k], idx[i] = idx[i], idx[k]
+				permGroups(k + 1)
+				idx[k], idx[i] = idx[i], idx[k]
+			}
+		}
+		permGroups(0)
+	}
 	if thorough() {
 		for _, rep := range representatives(3)[:4] {
 			var baseToks, rest []spec.Tok
@@ -442,11 +492,17 @@ func permute(a []spec.Tok, f func([]spec.Tok)) {
 	rec(0)
 }
 
+// extraStage lets one property add a stage of its own to the shared driver below.
+var extraStage func(c *ctx)
+
 func vectorPropertyTest(t *testing.T, id string, check func(vecCase) string, rule string, assumptions []string, minLevel spec.Level) {
 	c := begin(t, id)
 	defer c.end()
 	c.rec.F.Rule = rule
 	c.rec.F.Assumptions = assumptions
+	if extraStage != nil {
+		extraStage(c)
+	}
 	nviol := 0
 	i := 0
 	forEachSweepVector(func(ver int, lv spec.Level, v spec.Vec, label string) {
@@ -483,7 +539,7 @@ func vectorPropertyTest(t *testing.T, id string, check func(vecCase) string, rul
 	})
 }
 
-const sweepRule = "sweeps (deterministic, complete): every v3 metric x every code x every token position at every decoder covering it; all 2^14 subsets of the v3 optional metrics (values hash-chosen); every v2 metric x code in every group shape at every covering decoder; thorough: all 8! orders of the base tokens of 4 representative vectors. rapid: accepted vectors of both versions at a random covering decoder, constructor or nil receiver, random token order, omission and explicit X (v3), all four group shapes (v2). "
+const sweepRule = "sweeps (deterministic, complete): every v3 metric x every code x every token position at every decoder covering it; all 2^14 subsets of the v3 optional metrics (values hash-chosen); every v2 metric x code in every group shape at every covering decoder; every move of a contiguous block of up to 11 tokens of a full v3 vector and all 720 orders of its six sub-groups; thorough: all 8! orders of the base tokens of 4 representative vectors. rapid: accepted vectors of both versions at a random covering decoder, constructor or nil receiver, random token order, omission and explicit X (v3), all four group shapes (v2). "
 
 func TestC09(t *testing.T) {
 	vectorPropertyTest(t, "C09", checkC09, sweepRule+"Oracle: reference token map -> expected exported constant per field (read by reflection on the field name), unwritten optional metric = Not Defined (v3) / IsEmpty() of the group (v2); metamorphic twins (canonical order spelled out, canonical order with only defined metrics) must give an identical snapshot of fields, scores, severities and encodings at every level. Non-trivial = non-canonical presentation (v3) or at least one optional group (v2); distinct by hash of (version, decoder, receiver, input).",
@@ -495,7 +551,38 @@ func TestC10(t *testing.T) {
 		[]string{"reference canonical encoder written from the property statement"}, spec.Base)
 }
 
+// c14Complete: all 73,629 v2 base x temporal vectors at the environmental decoder, without
+// and with a hash-chosen environmental group (views through the object versus independent
+// decodes of the projections, both query orders).
+func c14Complete(c *ctx) {
+	nviol := 0
+	var evals int64
+	forEachV2BaseTemporal(func(i int, b [6]int, hasT bool, tt [3]int) {
+		if nviol > 0 || !mine(i) {
+			return
+		}
+		for _, withE := range []bool{false, true} {
+			h := mix(uint64(seed), uint64(i))
+			e := [5]int{int(h % 6), int((h >> 8) % 5), int((h >> 16) % 4), int((h >> 24) % 4), int((h >> 32) % 4)}
+			cs := vecCase{Ver: 2, Level: 2, NilRecv: i%2 == 0, Input: gen.V2FromIdx(b, hasT, tt, withE, e).String()}
+			evals++
+			evalEnum(c, "vector", cs, checkC14, &nviol)
+			if hasT && !withE {
+				cs.Level = 1
+				evals++
+				evalEnum(c, "vector", cs, checkC14, &nviol)
+			}
+		}
+	})
+	c.rec.Bulk("v2-base-x-temporal-complete", evals, evals, map[string]int64{"v2-complete-enumeration": evals})
+	if shard == 0 {
+		c.rec.F.Exhaustive = append(c.rec.F.Exhaustive, "v2 base x (temporal + absent) (73,629 vectors) at the environmental decoder, with and without environmental group")
+	}
+}
+
 func TestC14(t *testing.T) {
-	vectorPropertyTest(t, "C14", checkC14, sweepRule+"Oracle: BaseMetrics() / TemporalMetrics() of the decoded object (and the base view of the temporal view) versus an independent NewBase / NewTemporal decode of the reference projection of the vector (v3: prefix plus the tokens of the lower level in written order; v2: cut at the group boundary): equal score, severity, encoding and encoding error; accessors non-nil; v2 accessors return the exported embedded objects; each case is evaluated in two query orders (lower views first / top-level object queried completely first). Only temporal and environmental decoders are exercised. Non-trivial as C09.",
+	extraStage = c14Complete
+	defer func() { extraStage = nil }()
+	vectorPropertyTest(t, "C14", checkC14, sweepRule+"Oracle: BaseMetrics() / TemporalMetrics() of the decoded object (and the base view of the temporal view) versus an independent NewBase / NewTemporal decode of the reference projection of the vector (v3: prefix plus the tokens of the lower level in written order; v2: cut at the group boundary): equal score, severity, encoding and encoding error; accessors non-nil; v2 accessors return the exported embedded objects; each case is evaluated in two query orders (lower views first / top-level object queried completely first). Additionally all 73,629 v2 base x temporal vectors are decoded at the environmental decoder without and with a hash-chosen environmental group (complete). Only temporal and environmental decoders are exercised. Non-trivial as C09.",
 		[]string{"projection computed by the reference tokenizer"}, spec.Temporal)
 }
